@@ -25,9 +25,6 @@ import lib
 TOL = Fraction(1, 1000)
 POLAR_KEYWORDS = {"if", "elif", "else", "end", "while", "true", "false", "types"}
 SYMENGINE_CONSTANTS = {"e", "pi", "oo", "zoo", "nan", "inf"}
-# names treated as taken by the proposed fix proposed_fixes/c15_reserved_names.diff; a mapping that is a possible
-# outcome of get_unique_name with these pre-existing names is accepted as well (repaired code)
-RESERVED_FIX = ["if", "elif", "else", "end", "while", "true", "false", "types", "e", "pi", "oo", "zoo", "nan", "inf"]
 
 
 # ------------------------------------------------------------------ Coq term printers
@@ -304,7 +301,7 @@ def build_cases(ctx):
     for kind in bifgen.MALFORMED:
         for _ in range(n_mal):
             ast, text, info, net = bifgen.malform(rng, kind)
-            cases.append({"kind": "malformed:" + kind, "ast": ast, "text": text, "info": info, "net": net,
+            cases.append({"kind": "valid+property-line" if kind == "prob_property" else "malformed:" + kind, "ast": ast, "text": text, "info": info, "net": net,
                           "queries": [{"type": "none"}]})
     # names whose sanitised form is a keyword of Polar's language or a symengine constant
     for rep in range(ctx.pick(1, 3)):
@@ -439,8 +436,7 @@ def run(ctx):
                 mp = clist([cstr(b) for _, b in g['mapping']])
                 terms.append(f"valid_mapping {nm} {mp}")
                 labels.append(f"mapping:{j}")
-                terms.append(f"valid_mapping_from {clist([cstr(x) for x in RESERVED_FIX])} {nm} {mp}")
-                labels.append(f"mapping-reserved-aware:{j}")
+
         defs.append(f"Definition r{i} : list bool := {clist(terms)}.")
         coq_defs.append((i, "\n".join(defs)))
         layout.append((c, labels))
@@ -496,7 +492,7 @@ def run(ctx):
             if not real_acc and c["info"].get("well_formed_bif"):
                 ctx.coverage["refused_well_formed"] = ctx.coverage.get("refused_well_formed", 0) + 1
             continue
-        if kind == "malformed:prob_property" and model_acc and not real_acc and \
+        if kind == "valid+property-line" and model_acc and not real_acc and \
                 r["exc"]["etype"] == "AssertionError" and "__add_cpt__" in r.get("tb", ""):
             newv = ctx.violation("accept:property-in-probability-block", replay_of(c, polar=r.get("exc"), tb=r.get("tb")),
                                  "a property line inside a probability block (allowed by bif-syntax.lark) makes "
@@ -527,7 +523,7 @@ def run(ctx):
             continue
         # ---- network
         ctx.coverage["obligations"] += 1
-        intended = kind in ("valid", "reserved-name", "malformed:prob_property")
+        intended = kind in ("valid", "reserved-name", "valid+property-line")
         tgt = target_network_matches(c["net"], r["network"]) if intended else None
         if "net_unrep" in c:
             ctx.violation(f"network:shape:{kind}", replay_of(c, why=c["net_unrep"], network=r["network"]),
@@ -578,9 +574,6 @@ def run(ctx):
                 continue
             okp = v.get(f"program:{j}", False)
             okm = v.get(f"mapping:{j}", False)
-            if not okm and v.get(f"mapping-reserved-aware:{j}", False):
-                okm = True
-                ctx.coverage["mapping_reserved_aware"] = ctx.coverage.get("mapping_reserved_aware", 0) + 1
             sem_bad = None
             if intended and tgt is None:
                 # independent semantic check: exact law of Polar's program vs the product formula
